@@ -49,3 +49,37 @@ def lemma_zero_sum(A, n):
     """The sum of n zero elements is zero (induction on n)."""
     if n > 0:
         lemma_zero_sum(A, n - 1)
+
+
+# ---- C17: histories of FoldedData re-tunings, against the contracts of _get_dmdelays / _get_pdelays only
+def folded_dm_history(cube, a, b):
+    """Total increment rolled by update_dm(a); update_dm(b)."""
+    d1 = cube._get_dmdelays(a)
+    d2 = cube._get_dmdelays(b)
+    return d1 + d2
+
+
+def folded_dm_repeat(cube, a):
+    """Increment rolled by the second of two identical update_dm calls."""
+    cube._get_dmdelays(a)
+    return cube._get_dmdelays(a)
+
+
+def folded_period_history(cube, a, b):
+    """Total increment rolled by update_period(a); update_period(b)."""
+    d1 = cube._get_pdelays(a)
+    d2 = cube._get_pdelays(b)
+    return d1 + d2
+
+
+def folded_period_repeat(cube, a):
+    cube._get_pdelays(a)
+    return cube._get_pdelays(a)
+
+
+def folded_mixed_history(cube, a, p, b):
+    """update_dm(a); update_period(p); update_dm(b): the period update does not disturb the DM bookkeeping."""
+    d1 = cube._get_dmdelays(a)
+    cube._get_pdelays(p)
+    d2 = cube._get_dmdelays(b)
+    return d1 + d2
